@@ -39,9 +39,24 @@ var ruleSources embed.FS
 const maxInlineSites = 4
 
 var (
-	anchorWordSet  map[string]bool
+	anchorWordSet  map[string]bool // identifier-like words inside rule string literals
+	anchorLitSet   map[string]bool // complete rule string literals
+	anchorAllText  string          // all rule string literals, concatenated
 	anchorWordOnce sync.Once
 )
+
+// isAnchor: may some rule refer to this function by name? Package-level functions: their bare name occurs as a
+// word in a rule string. Methods: their canonical name ("(*T).m") occurs in a rule string, or their bare name is
+// a complete rule string (rules build "(*T)."+name from lists of bare names) — a new method that merely shares
+// its name with an anchored method of another type (topicStats.score vs peerScore.score) is not an anchor.
+func isAnchor(f *Func) bool {
+	anchorWords()
+	bare := f.Decl.Name.Name
+	if f.Decl.Recv == nil {
+		return anchorWordSet[bare]
+	}
+	return anchorLitSet[bare] || strings.Contains(anchorAllText, f.Name)
+}
 
 // anchorWords: every identifier-like word inside a string literal of the rule sources. A function
 // whose bare name is such a word is an anchor (some rule may refer to it) and is never inlined.
@@ -52,6 +67,8 @@ func anchorWords() map[string]bool {
 
 func buildAnchorWords() {
 	anchorWordSet = map[string]bool{}
+	anchorLitSet = map[string]bool{}
+	var all strings.Builder
 	ents, _ := ruleSources.ReadDir(".")
 	strRe := regexp.MustCompile("\"(?:[^\"\\\\\\n]|\\\\.)*\"|`[^`]*`")
 	wordRe := regexp.MustCompile(`[A-Za-z_][A-Za-z0-9_]*`)
@@ -64,8 +81,14 @@ func buildAnchorWords() {
 			for _, w := range wordRe.FindAll(s, -1) {
 				anchorWordSet[string(w)] = true
 			}
+			if len(s) >= 2 {
+				anchorLitSet[string(s[1:len(s)-1])] = true
+			}
+			all.Write(s)
+			all.WriteByte('\n')
 		}
 	}
+	anchorAllText = all.String()
 }
 
 type textEdit struct {
@@ -78,6 +101,8 @@ type inlineCand struct {
 	refs  []Ref
 	edits map[string][]textEdit // by absolute file name
 	why   string
+	// the helper contains a defer: it may only be inlined at tail calls
+	tailOnly bool
 }
 
 type canonResult struct {
@@ -315,7 +340,8 @@ func findInlineCands(p *Prog, res *canonResult) []*inlineCand {
 			continue
 		}
 		name := f.Decl.Name.Name
-		if ast.IsExported(name) || name == "init" || name == "main" || name == "_" || anchors[name] {
+		_ = anchors
+		if ast.IsExported(name) || name == "init" || name == "main" || name == "_" || isAnchor(f) {
 			continue
 		}
 		skip := func(why string) {
@@ -335,11 +361,14 @@ func findInlineCands(p *Prog, res *canonResult) []*inlineCand {
 		if !allCalls {
 			continue
 		}
-		if why := helperUnsuitable(p, f); why != "" {
+		tailOnly := false
+		if why := helperUnsuitable(p, f); why == "defer:tail-only" {
+			tailOnly = true
+		} else if why != "" {
 			skip(why)
 			continue
 		}
-		c := &inlineCand{f: f, refs: refs, edits: map[string][]textEdit{}}
+		c := &inlineCand{f: f, refs: refs, edits: map[string][]textEdit{}, tailOnly: tailOnly}
 		ok := true
 		for _, r := range refs {
 			if why := planInlineSite(p, c, r, res); why != "" {
@@ -382,10 +411,13 @@ func helperUnsuitable(p *Prog, f *Func) string {
 		}
 	}
 	why := ""
+	hasDefer := false
 	inspectNoLit(d.Body, func(n ast.Node) bool {
 		switch x := n.(type) {
 		case *ast.DeferStmt:
-			why = "defer in helper"
+			// allowed only for tail calls (`return H(...)`): the deferred call then runs at the same moment, as the
+			// caller's most recently registered defer (checked per call site)
+			hasDefer = true
 		case *ast.BranchStmt:
 			if x.Tok == token.GOTO {
 				why = "goto in helper"
@@ -404,7 +436,9 @@ func helperUnsuitable(p *Prog, f *Func) string {
 	if why != "" {
 		return why
 	}
-	// the function must end in a return when it has results (so that "break" rewriting is total)
+	if hasDefer {
+		return "defer:tail-only"
+	}
 	return ""
 }
 
@@ -586,13 +620,25 @@ func planInlineSite(p *Prog, c *inlineCand, r Ref, res *canonResult) string {
 				}
 				c.edits[file] = append(c.edits[file], textEdit{off(call.Pos()), off(call.End()), sub})
 				return ""
-			} else if mode == "" {
+			} else if mode == "" && nres != 1 {
 				return why
 			}
 		}
 	}
+	if mode == "" && nres == 1 {
+		// a call inside a larger expression: it may be evaluated in front of its statement when nothing but reads of
+		// local variables is evaluated before it and it is not conditionally evaluated
+		if s, why := exprHoistStmt(p, r.Fn, call); why == "" {
+			stmt, mode = s, "hoist"
+		} else {
+			return "call in an expression context (" + why + ")"
+		}
+	}
 	if mode == "" {
 		return "call in an expression context"
+	}
+	if c.tailOnly && mode != "tail" {
+		return "defer in helper (and the call is not a tail call)"
 	}
 	if mode == "stmt" && nres != 0 {
 		mode = "stmt" // results discarded: returns become breaks, result expressions are still evaluated
@@ -670,7 +716,8 @@ func planInlineSite(p *Prog, c *inlineCand, r Ref, res *canonResult) string {
 			}
 			arg := call.Args[pi]
 			tv := info.Types[arg]
-			addBinding(pn, sig.Params().At(pi).Type(), text(arg), tv.Type, tv.IsNil())
+			// constants (typed by their context) and nil need the parameter's type spelled out in a var declaration
+			addBinding(pn, sig.Params().At(pi).Type(), text(arg), tv.Type, tv.IsNil() || tv.Value != nil)
 			pi++
 		}
 	}
@@ -1179,4 +1226,89 @@ func findUnrollCands(p *Prog, res *canonResult) []*unrollCand {
 		})
 	}
 	return out
+}
+
+// exprHoistStmt decides whether call, a sub-expression of a simple statement, can be evaluated in front of that
+// statement without changing behaviour: the statement is a plain assignment / expression / return / send /
+// inc-dec statement or the condition of an if (no init, not an else-if); the call is not in the right operand of
+// && or || (conditional evaluation) nor inside a function literal; and everything that precedes it in the
+// statement is free of calls, receives and of reads of anything but local variables (which a callee cannot change).
+func exprHoistStmt(p *Prog, fn *Func, call *ast.CallExpr) (ast.Stmt, string) {
+	var stmt ast.Stmt
+	for x := p.parents[ast.Node(call)]; x != nil; x = p.parents[x] {
+		switch s := x.(type) {
+		case *ast.FuncLit:
+			return nil, "inside a function literal"
+		case *ast.BinaryExpr:
+			if (s.Op == token.LAND || s.Op == token.LOR) && within(call, s.Y) {
+				return nil, "conditionally evaluated"
+			}
+		case *ast.AssignStmt, *ast.ExprStmt, *ast.ReturnStmt, *ast.SendStmt, *ast.IncDecStmt:
+			stmt = s.(ast.Stmt)
+		case *ast.IfStmt:
+			if s.Init != nil || !within(call, s.Cond) {
+				return nil, "if statement with init"
+			}
+			if _, isElse := p.parents[s].(*ast.IfStmt); isElse {
+				return nil, "else-if"
+			}
+			stmt = s
+		case ast.Stmt:
+			return nil, "unsupported statement"
+		}
+		if stmt != nil {
+			break
+		}
+	}
+	if stmt == nil {
+		return nil, "no enclosing simple statement"
+	}
+	if as, ok := stmt.(*ast.AssignStmt); ok {
+		if _, inIf := p.parents[as].(*ast.IfStmt); inIf {
+			return nil, "if-init assignment with a compound expression"
+		}
+	}
+	switch p.parents[stmt].(type) {
+	case *ast.BlockStmt, *ast.CaseClause, *ast.CommClause:
+	default:
+		return nil, "statement is not in a statement list"
+	}
+	info := fn.Info()
+	why := ""
+	var root ast.Node = stmt
+	if is, ok := stmt.(*ast.IfStmt); ok {
+		root = is.Cond
+	}
+	ast.Inspect(root, func(n ast.Node) bool {
+		if n == nil || why != "" {
+			return false
+		}
+		if n == ast.Node(call) {
+			return false // the call's own receiver and arguments are bound in order by the inliner
+		}
+		if n.Pos() >= call.Pos() {
+			return true // evaluated after the call in both versions (or contains it)
+		}
+		if n.End() > call.Pos() {
+			return true // an ancestor of the call: look at its earlier children
+		}
+		switch x := n.(type) {
+		case *ast.CallExpr:
+			if tv, ok := info.Types[x.Fun]; !ok || !tv.IsType() {
+				why = "another call is evaluated before it"
+			}
+		case *ast.UnaryExpr:
+			if x.Op == token.ARROW {
+				why = "a receive is evaluated before it"
+			}
+		case *ast.SelectorExpr, *ast.IndexExpr, *ast.StarExpr, *ast.SliceExpr:
+			why = "a field, element or pointer read is evaluated before it"
+		case *ast.Ident:
+			if v, ok := info.Uses[x].(*types.Var); ok && (v.IsField() || v.Parent() == v.Pkg().Scope()) {
+				why = "a package-level variable is read before it"
+			}
+		}
+		return why == ""
+	})
+	return stmt, why
 }
